@@ -200,5 +200,5 @@ def make_harness(case, tier):
 
 
 def run_case(case, tier):
-    ctx = explore.explore(make_harness(case, tier), max_paths=100000, time_budget_s=400, decide_timeout_ms=20000)
+    ctx = explore.explore(make_harness(case, tier), max_paths=(100000 if tier == 'quick' else 4000000), time_budget_s=(400 if tier == 'quick' else 3600), decide_timeout_ms=20000)
     return driver.result_from_ctx(ctx)
